@@ -597,30 +597,30 @@ Proof.
   rewrite num_toks_fmt. cbn [map]. unfold fmtb at 1. rewrite E. reflexivity.
 Qed.
 
-Lemma append_one reg q id :
-  fst (pipe_append reg q [id]) = match reg_get reg id with Some f => q ++ [f] | None => q end.
+Lemma append_each_err_loop reg (ids : list byte) : forall q p,
+  pipe_append_loop reg q ids = (p, None) -> (length p <= 255)%nat ->
+  append_each_err reg ids q = Some p.
 Proof.
-  unfold pipe_append. cbn [pipe_append_loop]. destruct (reg_get reg id) as [f|]; [|reflexivity].
-  destruct (Nat.ltb 255 (length (q ++ [f]))); reflexivity.
-Qed.
-
-Lemma append_each_loop reg (ids : list byte) : forall q p,
-  pipe_append_loop reg q ids = (p, None) ->
-  fold_left (fun p z => fst (pipe_append reg p [wrap8 z])) (map byte_z ids) q = p.
-Proof.
-  induction ids as [|id r IH]; intros q p H; cbn [pipe_append_loop] in H.
+  induction ids as [|id r IH]; intros q p H Hl; cbn [pipe_append_loop] in H.
   - inversion H. reflexivity.
   - destruct (reg_get reg id) as [f|] eqn:E; [|discriminate].
-    cbn [map fold_left]. rewrite wrap8_byte_z, append_one, E. apply IH. exact H.
+    destruct (append_loop_ok _ _ _ _ H) as (fs & -> & _ & _).
+    cbn [append_each_err]. unfold pipe_append. cbn [pipe_append_loop]. rewrite E.
+    replace (Nat.ltb 255 (length (q ++ [f]))) with false
+      by (symmetry; apply Nat.ltb_ge; rewrite app_length in Hl; lia).
+    apply IH; assumption.
 Qed.
 
-Lemma append_each_ok reg ids p :
-  pipe_append reg [] ids = (p, None) -> append_each reg (map byte_z ids) = p.
+Lemma append_each_err_ok reg ids p :
+  pipe_append reg [] ids = (p, None) -> append_each_err reg ids [] = Some p.
 Proof.
-  unfold pipe_append, append_each. destruct (pipe_append_loop reg [] ids) as [q [e|]] eqn:E; [discriminate|].
-  destruct (Nat.ltb 255 (length q)); [discriminate|]. intros H; inversion H; subst q.
-  apply append_each_loop. exact E.
+  unfold pipe_append. destruct (pipe_append_loop reg [] ids) as [q [e|]] eqn:E; [discriminate|].
+  destruct (Nat.ltb 255 (length q)) eqn:L; [discriminate|]. intros H; inversion H; subst q.
+  apply append_each_err_loop; [exact E | apply Nat.ltb_ge in L; exact L].
 Qed.
+
+Lemma map_wrap8_byte_z (ids : list byte) : map wrap8 (map byte_z ids) = ids.
+Proof. induction ids as [|c r IH]; [reflexivity|]. cbn [map]. rewrite wrap8_byte_z, IH. reflexivity. Qed.
 
 Lemma msg_of_jraw_ok2 m b1 b2 xs :
   json_ok m = true ->
@@ -659,7 +659,7 @@ Section WsJson.
     rewrite Hids in Eb, Es. subst b size. split; [|reflexivity].
     unfold wsj_unpack, gjson_wsj.
     rewrite parse_wsj_ok by exact Hok. cbn [jr_xfer jr_body jraw_of].
-    rewrite (append_each_ok reg ids p Hp).
+    rewrite map_wrap8_byte_z, (append_each_err_ok reg ids p Hp). cbn [of_option rbind].
     rewrite (registered_pipe_roundtrip reg ids p Hinv Hp _ _ Hpp). cbn [of_option rbind].
     rewrite msg_of_jraw_ok2 by exact Hok. cbn [rbind]. rewrite msg_eta, Hids. reflexivity.
   Qed.
@@ -668,7 +668,8 @@ Section WsJson.
   Lemma wsj_size_own reg lim b m ids size :
     wsj_unpack gjson_other reg lim b = Ok (m, ids, size) -> size = sub_size lim b.
   Proof.
-    unfold wsj_unpack. destruct (pipe_unpack _ _); cbn [of_option rbind]; [|discriminate].
+    unfold wsj_unpack. destruct (append_each_err _ _ _); cbn [of_option rbind]; [|discriminate].
+    destruct (pipe_unpack _ _); cbn [of_option rbind]; [|discriminate].
     destruct (msg_of_jraw _ _); cbn [rbind]; try discriminate.
     intros H. apply Ok_inj in H. congruence.
   Qed.
